@@ -297,7 +297,7 @@ def rule_converters(ctx, repo):
         if len(rets) != 1:
             r.undecided(n, fi.site if fi else '', 'not a single return')
             continue
-        got = norm(rets[0])
+        got = norm(rets[0]).replace('[-1::-1]', '[::-1]')  # the same whole-sequence reversal
         rev_got, rev_want = '[::-1]' in got, '[::-1]' in w
         p0 = fi.params[0] if fi.params else 'h'
         alts = {'lx': ['x(%s)[::-1]' % p0], 'b2lx': ['b2x(%s[::-1])' % p0], 'x': ["bytes.fromhex(%s)" % p0], 'b2x': ['%s.hex()' % p0]}.get(n, [])
